@@ -302,3 +302,98 @@ Theorem impl_refines_spec_history_restarts_partial : forall rules F rank ord syn
   run_hops rules F ord syncp (irestart true init_istate) ops = Some (sf, vs2) -> vs2 = vs1.
 Proof. exact refines_spec_hops. Qed.
 Print Assumptions impl_refines_spec_history_restarts_partial.
+
+(* ---------- the engine with the queue DISCIPLINE left open (Engine/ImplGen.v) ----------
+   [mstep_gen]: a completion arriving from a task, or ANY item (position i) of one of the five queues; the steps of Impl.v (heads of
+   the queues) are the positions 0.  Refactors of the implementation that only change the order in which a queue is drained stay
+   inside msteps_gen.  Method of all proofs below: a step at position i is the head step of the state whose queue has the picked
+   element moved to the front, and every invariant used looks at the queues as multisets (counts, Forall, In, NoDup). *)
+From LLB Require Import Engine.ImplGen Engine.ImplGenProofs Engine.ImplGenInv Engine.ImplGenThms Engine.ImplGenVal.
+
+(* the enumerator of enabled steps lists steps only; every run of Impl.v's steps, in particular every iteration of its loop, is a
+   run of general steps *)
+Theorem impl_enabled_gen_sound : forall rules env F ord syncp s l s',
+  In (l, s') (enabled_gen rules env F ord syncp s) -> mstep_gen rules env F ord syncp s s'.
+Proof. exact enabled_gen_sound. Qed.
+Print Assumptions impl_enabled_gen_sound.
+Theorem impl_msteps_are_gen : forall rules env F ord syncp s s',
+  msteps rules env F ord syncp s s' -> msteps_gen rules env F ord syncp s s'.
+Proof. exact msteps_msteps_gen. Qed.
+Print Assumptions impl_msteps_are_gen.
+Theorem impl_loop_iteration_steps_gen : forall rules env F ord syncp stalled fuel s comps,
+  is_fault (fst (loop_iteration_gen rules env F ord syncp stalled fuel s comps)) = None ->
+  msteps_gen rules env F ord syncp s (fst (loop_iteration_gen rules env F ord syncp stalled fuel s comps)).
+Proof. exact loop_iteration_msteps_gen. Qed.
+Print Assumptions impl_loop_iteration_steps_gen.
+
+(* the first-stage theorems, for every queue discipline *)
+Theorem impl_state_monotone_gen : forall rules env F ord syncp s s',
+  msteps_gen rules env F ord syncp s s' -> is_fault s' = None ->
+  is_fault s = None /\ is_epoch s' = is_epoch s /\ forall k, (krank s k <= krank s' k)%nat.
+Proof. exact state_monotone_gen. Qed.
+Print Assumptions impl_state_monotone_gen.
+Theorem impl_at_most_once_gen : forall rules env F ord syncp s s',
+  msteps_gen rules env F ord syncp s s' -> is_fault s' = None ->
+  exists l, is_log s' = l ++ is_log s /\
+            forall k, (count_ev (is_create k) l <= 1)%nat /\ (count_ev (is_avail k) l <= 1)%nat.
+Proof. exact at_most_once_gen. Qed.
+Print Assumptions impl_at_most_once_gen.
+Theorem impl_no_fault_gen : forall rules env F ord syncp s0 root s,
+  in_build_gen rules env F ord syncp s0 root s -> is_fault s = None.
+Proof. exact no_fault_gen. Qed.
+Print Assumptions impl_no_fault_gen.
+Theorem impl_waitcount_gen : forall rules env F ord syncp s0 root s,
+  in_build_gen rules env F ord syncp s0 root s ->
+  forall t ti, aget (is_tasks s) t = Some ti -> ti_wait ti = outstanding_count s t.
+Proof. exact waitcount_gen. Qed.
+Print Assumptions impl_waitcount_gen.
+Theorem impl_inputs_available_at_zero_gen : forall rules env F ord syncp s0 root s s' l k,
+  in_build_gen rules env F ord syncp s0 root s -> mstep_gen rules env F ord syncp s s' -> is_log s' = l ++ is_log s -> In (EAvail k) l ->
+  exists ti, aget (is_tasks s) k = Some ti /\ kind_of s k = KWaiting /\ ti_wait ti = 0%nat /\ outstanding_count s k = 0%nat.
+Proof. exact inputs_available_at_zero_gen. Qed.
+Print Assumptions impl_inputs_available_at_zero_gen.
+(* PARTIAL in the same sense as impl_protocol_partial *)
+Theorem impl_protocol_gen_partial : forall rules env F ord syncp s0 root s,
+  in_build_gen rules env F ord syncp s0 root s ->
+  exists l, is_log s = l ++ is_log (start_build (iemit (bump s0) (EBuildStart root)) root) /\
+            forall k, proto_prefix_ok (provided (projl k l)) (projl k l) = true.
+Proof. exact protocol_prefix_gen. Qed.
+Print Assumptions impl_protocol_gen_partial.
+(* the loop of Impl.v entered in a state that was reached under any discipline *)
+Theorem impl_stall_no_dead_end_gen : forall rules env F ord syncp stalled s0 root s fuel comps s',
+  in_build_gen rules env F ord syncp s0 root s ->
+  loop_iteration_gen rules env F ord syncp stalled fuel s comps = (s', StStall) ->
+  (aget (is_tasks s') root <> None \/ kind_of s' root = KScanning) ->
+  FindCycle.no_dead_end (wait_graph s') root /\
+  exists l, FindCycle.findcycle_names (wait_graph s') root (fc_linear_fuel (wait_graph s')) = FindCycle.FcDone l /\ l <> [].
+Proof. exact stall_finds_cycle_gen. Qed.
+Print Assumptions impl_stall_no_dead_end_gen.
+Theorem impl_edges_real_gen : forall rules env F ord syncp s0 root s a b,
+  in_build_gen rules env F ord syncp s0 root s -> In (a, b) (wait_graph s) ->
+  In a (requestable (rules b)) \/ In a (map d_key (res_deps (res_of s b))).
+Proof. exact edges_real_gen. Qed.
+Print Assumptions impl_edges_real_gen.
+Theorem impl_done_quiescent_gen : forall rules env F ord syncp s0 root s fuel comps s',
+  in_build_gen rules env F ord syncp s0 root s ->
+  loop_iteration rules env F ord syncp fuel s comps = (s', StDone) -> quiescent s'.
+Proof. exact done_quiescent_gen. Qed.
+Print Assumptions impl_done_quiescent_gen.
+
+(* the values, for every queue discipline: ANY run of general steps from the start of a build (engine at rest: HInv) that reaches a
+   quiescent state has stored the clean value for the requested key and for every key completed in this epoch, and ends in a state
+   at rest again.  PARTIAL as impl_build_values_clean_partial (no cancelled build before). *)
+Theorem impl_run_gen_values_clean_partial : forall rules F rank R ord syncp,
+  wf_rank rules rank -> wf_disc rules -> table_ok rules R -> (forall k, In RReq (ord k)) ->
+  forall env cfuel s0 root sf, ImplInc1.HInv F R s0 -> in_build_gen rules env F ord syncp s0 root sf -> quiescent sf ->
+  ((rank root < cfuel)%nat -> res_value (res_of sf root) = cv rules env F cfuel root) /\ ImplInc1.HInv F R sf /\
+  forall k, kind_of sf k = KComplete -> res_builtAt (res_of sf k) = is_epoch sf -> (rank k < cfuel)%nat ->
+            res_value (res_of sf k) = cv rules env F cfuel k.
+Proof. exact run_gen_values_clean. Qed.
+Print Assumptions impl_run_gen_values_clean_partial.
+(* ... and memory and database stay in step (engines with a database) *)
+Theorem impl_run_gen_db_in_step : forall rules F rank R ord syncp,
+  wf_rank rules rank -> wf_disc rules -> table_ok rules R -> (forall k, In RReq (ord k)) ->
+  forall env s0 root sf, ImplInc1.HInv F R s0 -> is_usedb s0 = true -> DBI R s0 -> in_build_gen rules env F ord syncp s0 root sf ->
+  DBI R sf /\ is_usedb sf = true.
+Proof. exact run_gen_DBI. Qed.
+Print Assumptions impl_run_gen_db_in_step.
